@@ -52,3 +52,21 @@ def divide_stub():
     def h(it, a):
         return it.call_function('_Z13h_divide_stubSt10shared_ptrI4cellEdRK18local_mesh_refiner', a)
     return {real: h}
+
+
+def opaque_to_string(it_module_functions=None):
+    """std::to_string of a *symbolic* integer yields the text "#" (formatting of diagnostics is not the subject of the checks that
+    use this; concrete arguments run the real libstdc++ code).  Returns an overrides dict for api.Session."""
+    out = {}
+    def make(name):
+        def f(it, a):
+            v = it._known(a[1])
+            if type(v) is int or v is None:
+                return it.invoke_target(('ir', it.m.funcs[name], name), a)
+            it.str_init(a[0], b'#')
+            return None
+        return f
+    for suffix in ('i', 'j', 'l', 'm', 'x', 'y'):
+        n = '_ZNSt7__cxx119to_stringE' + suffix
+        out[n] = make(n)
+    return out
